@@ -805,6 +805,98 @@ theorem insertQ_eq (o : OStream) (n d : Int) (hd : 0 < d) :
   rw [intParams_layout2]
   simp [h1]
 
+/-! ### reading back what was written -/
+
+theorem digitChar_spec (b : Nat) (hb : b = 8 ∨ b = 10 ∨ b = 16) (u : Bool) (d : Nat) (hd : d < b) :
+    digitTest b (digitChar u d) = true ∧ Scanf.digitValue (digitChar u d) = d := by
+  rcases hb with rfl | rfl | rfl <;> cases u <;> interval_cases d <;> decide
+
+theorem natDigits_spec (b : Nat) (hb : b = 8 ∨ b = 10 ∨ b = 16) (u : Bool) :
+    ∀ n : Nat, (∀ c ∈ natDigits b u n, digitTest b c = true) ∧ digitsVal b (natDigits b u n) = n := by
+  have hb2 : 2 ≤ b := by rcases hb with rfl | rfl | rfl <;> omega
+  intro n
+  induction n using Nat.strong_induction_on with
+  | _ n ih =>
+    rw [natDigits]
+    split
+    · rename_i h
+      have hn : n < b := by rcases h with h | h <;> omega
+      have := digitChar_spec b hb u n hn
+      simp [digitsVal, this.1, this.2]
+    · rename_i h
+      have hn : ¬ n < b := fun h' => h (Or.inl h')
+      obtain ⟨ih1, ih2⟩ := ih (n / b) (Nat.div_lt_self (by omega) (by omega))
+      have hm : n % b < b := Nat.mod_lt _ (by omega)
+      have hs := digitChar_spec b hb u (n % b) hm
+      refine ⟨?_, ?_⟩
+      · intro c hc
+        rcases mem_append.mp hc with h1 | h1
+        · exact ih1 c h1
+        · simp only [mem_singleton] at h1; rw [h1]; exact hs.1
+      · have : digitsVal b (natDigits b u (n / b) ++ [digitChar u (n % b)]) = digitsVal b (natDigits b u (n / b)) * b + Scanf.digitValue (digitChar u (n % b)) := by
+          simp [digitsVal, foldl_append]
+        rw [this, ih2, hs.2]
+        exact Nat.div_add_mod' n b
+
+theorem takeWhile_eq_self' (p : Char → Bool) (l : List Char) (h : ∀ c ∈ l, p c = true) : l.takeWhile p = l := by
+  induction l with
+  | nil => rfl
+  | cons a t ih => simp [h a mem_cons_self, ih (fun c hc => h c (mem_cons_of_mem _ hc))]
+
+/-- a whole digit string, nothing after it -/
+theorem digitsPart_all (b : Nat) (neg : Bool) (pre : Nat) (zero : Bool) (ds : List Char) (hne : ds ≠ [])
+    (hall : ∀ c ∈ ds, digitTest b c = true) :
+    digitsPart b neg pre zero ds = ⟨pre + ds.length, .value (if neg then -(digitsVal b ds : Int) else digitsVal b ds), false, false⟩ := by
+  unfold digitsPart
+  simp only [takeWhile_eq_self' _ _ hall, hne, ne_eq, not_false_eq_true, if_true]
+
+theorem digit_ge_48 (b : Nat) (hb : b = 8 ∨ b = 10 ∨ b = 16) (c : Char) (h : digitTest b c = true) : 48 ≤ c.toNat := by
+  rcases hb with rfl | rfl | rfl
+  · have := (digitTest8_iff c).mp h; omega
+  · have := (digitTest10_iff c).mp h; omega
+  · have := (digitTest16_iff c).mp h; omega
+
+theorem cstr_id (l : List Char) (h : ∀ c ∈ l, 1 ≤ c.toNat) : cstr l = l := by
+  unfold cstr
+  apply takeWhile_eq_self'
+  intro c hc
+  have := h c hc
+  simp only [ne_eq, decide_not, Bool.not_eq_eq_eq_not, Bool.not_true, decide_eq_false_iff_not, char_eq_iff]
+  have e : ('\x00' : Char).toNat = 0 := rfl
+  omega
+
+/-- the text of a number in a fixed base, read back by a stream set to that base -/
+theorem numSpec_fixed_roundtrip (fi : Fmt) (b : Nat) (hb : b = 8 ∨ b = 10 ∨ b = 16) (hfi : fi.base? = some b)
+    (sg bd : List Char) (neg : Bool) (hsg : sg = [] ∧ neg = false ∨ sg = ['-'] ∧ neg = true ∨ sg = ['+'] ∧ neg = false)
+    (hne : bd ≠ []) (hall : ∀ c ∈ bd, digitTest b c = true) :
+    numSpec fi (sg ++ bd) = ⟨(sg ++ bd).length, .value (if neg then -(digitsVal b bd : Int) else digitsVal b bd), false, false⟩ := by
+  rcases hsg with ⟨rfl, rfl⟩ | ⟨rfl, rfl⟩ | ⟨rfl, rfl⟩
+  · cases bd with
+    | nil => exact absurd rfl hne
+    | cons a t =>
+      have ha := digit_ge_48 b hb a (hall a mem_cons_self)
+      have h1 : a ≠ '-' := by rw [Ne, char_eq_iff]; have : ('-' : Char).toNat = 45 := rfl; omega
+      have h2 : a ≠ '+' := by rw [Ne, char_eq_iff]; have : ('+' : Char).toNat = 43 := rfl; omega
+      have : numSpec fi ([] ++ a :: t) = bodySpec fi false 0 (a :: t) := by
+        unfold numSpec; split <;> simp_all
+      rw [this]
+      simp only [bodySpec, hfi]
+      rw [digitsPart_all b false 0 false (a :: t) hne hall]
+      simp
+  · have : numSpec fi (['-'] ++ bd) = bodySpec fi true 1 bd := rfl
+    rw [this]
+    simp only [bodySpec, hfi]
+    rw [digitsPart_all b true 1 false bd hne hall]
+    simp; omega
+  · have : numSpec fi (['+'] ++ bd) = bodySpec fi false 1 bd := rfl
+    rw [this]
+    simp only [bodySpec, hfi]
+    rw [digitsPart_all b false 1 false bd hne hall]
+    simp; omega
+
+theorem outBase_cases (f : Fmt) : f.outBase = 8 ∨ f.outBase = 10 ∨ f.outBase = 16 := by
+  unfold Fmt.outBase; split_ifs <;> simp
+
 end
 
 end Mpir.CxxIo
